@@ -95,6 +95,10 @@
 //	            `*f = v` through the written pointer receiver wherever it occurs (the final value of *f is
 //	            returned with the results, so an assignment on the success paths only is visible as
 //	            the unchanged parameter on the error paths).
+//	            `err := json.Unmarshal(b, &x)` (x a local of a named struct type S; also as an if's init): NO MODEL,
+//	            ORACLE o_json_Unmarshal_S : go_bytes -> S -> err * S, a leading parameter (all fields of S are kept);
+//	            struct members of type *string / *uint8 / *bool are options: p == nil, p != nil, *p (nil
+//	            dereference not modelled: zero value); the empty array literal Data{}; `return err` of a local error.
 //
 // render      (renderings family: pkg/cantext/encode.go, pkg/canjson/encode.go; readings: Translate/GoSemText.v, last block)
 //	            append-style byte building on a []byte variable v that is a make'd local or a []byte PARAMETER (a
